@@ -49,7 +49,7 @@ func (h *harness) genEncCfg(qs []vh.GQuad) encCfg {
 			}
 			name := vh.Pick(r, prefixNames)
 			if r.Chance(12) {
-				name = vh.Pick(r, []string{"", "_", "a:b", "a/b", "@type", "@foo", "x"})
+				name = vh.Pick(r, []string{"", "_", "a:b", "a/b", "@type", "@foo", "x", "@1", "@a1"})
 			}
 			c.prefixes = append(c.prefixes, [2]string{name, ns})
 		}
@@ -153,6 +153,9 @@ func normQuads(qs []rdf.Quad) []rdf.Quad {
 	return out
 }
 
+// natural2Hyps: the hypotheses of encoder_roundtrip_natural_partial as flags of the driver's jl.cert.
+var natural2Hyps = []string{"wf", "nonative", "lbl", "ctx", "loc", "struct"}
+
 func hasNativeTyped(qs []vh.GQuad) bool {
 	for _, q := range qs {
 		if q.O.Kind == vh.KLit && (q.O.DT == xsdNS+"integer" || q.O.DT == xsdNS+"double" || q.O.DT == xsdNS+"boolean") {
@@ -182,11 +185,13 @@ func docBaseOf(doc *JV) string {
 }
 
 func (h *harness) encodeCases(n int) {
+	h.encodeWitnesses()
 	for i := 0; i < n; i++ {
 		r := h.r
 		o := dsOpts{graphs: r.Chance(10), lists: r.Chance(50), nested: r.Chance(70), cycles: r.Chance(12), natives: r.Chance(35), exoticIR: r.Chance(15)}
 		ds := h.genDataset(o)
 		cfg := h.genEncCfg(ds.quads)
+		h.twistEncCase(&ds, &cfg)
 		h.encodeOne(ds, cfg, r.Chance(75), vh.Pick(r, []string{"", "", "http://e.com/other/doc"}))
 	}
 }
@@ -200,6 +205,13 @@ func (h *harness) encodeOne(ds dataset, cfg encCfg, mode11 bool, docBase string)
 	if res.panicked != "" {
 		h.rep.Eval(desc, nontrivial)
 		h.rep.Add(vh.Case{Kind: "violation", Op: "encode", Go: "panic " + res.panicked, Detail: "encoder panic — " + desc})
+		return
+	}
+	if res.err != nil && cfg.base != "" && !goodIRI(cfg.base) && strings.HasPrefix(res.err.Error(), "new: parse base:") {
+		// a base that is not an absolute IRI, refused by NewEncoder (outside the property's quantifier;
+		// the encoder model has no error path)
+		h.rep.Eval(desc, nontrivial)
+		h.rep.Count("encode:outside-quantifier:relative-base:refused-by-NewEncoder")
 		return
 	}
 	if res.err != nil {
@@ -312,6 +324,22 @@ func (h *harness) encodeOne(ds dataset, cfg encCfg, mode11 bool, docBase string)
 		}
 	}
 
+	if ds.witness != "" {
+		outcome := "roundtrip-fails"
+		switch {
+		case dres.panicked != "":
+			outcome = "decoder-panic"
+		case dres.err != nil:
+			outcome = "decoder-error"
+		case oracleOK:
+			outcome = "roundtrip-ok"
+		}
+		h.rep.Count("encode:witness:" + ds.witness + ":" + outcome)
+		if *verbose {
+			fmt.Printf("witness %s: %s\n  doc=%s\n  go: %s %s\n", ds.witness, desc, strings.TrimSpace(string(res.doc)), outcome, oracleDetail)
+		}
+	}
+
 	if *nomodel {
 		// search mode: the oracle alone, classes approximated on the implementation side
 		if !oracleOK {
@@ -325,8 +353,12 @@ func (h *harness) encodeOne(ds dataset, cfg encCfg, mode11 bool, docBase string)
 				key = "iri-scheme-equals-declared-prefix"
 			case resolverDeviates(gdoc, docBase) || (cfg.base != "" && (baseOutsideDomain(cfg.base) || resolverDeviates(gdoc, cfg.base))):
 				key = "jsonld-resolver-deviates-from-rfc3986"
+			case relRefMisread(cfg, ds.quads, gdoc) != "":
+				key = "relative-reference-read-as-compact-or-absolute-iri"
 			}
-			if key == "" || !h.knownCase(key, desc+" "+oracleDetail) {
+			if out := outsideQuantifier(cfg, ds.quads); out != "" || illFormedGo(ds.quads) {
+				h.rep.Count("encode:outside-quantifier:" + out + ":go-roundtrip=false")
+			} else if key == "" || !h.knownCase(key, desc+" "+oracleDetail) {
 				h.rep.Add(vh.Case{Kind: "violation", Op: line, Go: oracleDetail, Detail: "encoder output does not decode back to the dataset — " + desc})
 			}
 		}
@@ -353,6 +385,46 @@ func (h *harness) encodeOne(ds dataset, cfg encCfg, mode11 bool, docBase string)
 			h.rep.Count("encode:once-referenced-cycle")
 		}
 		h.rep.Count(fmt.Sprintf("encode:cert=%v,natural=%v", flags["cert"], natural))
+		// the hypotheses of theorem encoder_roundtrip_natural_partial (Props/C10Defs.lean, "natural
+		// hypotheses"): wf ∧ nonative ∧ lbl ∧ ctx ∧ loc ∧ struct ⇒ cert. Both sides of every hypothesis
+		// are counted; `cert-without:<hyp>` counts the cases in which the certificate holds although the
+		// hypothesis fails (the hypothesis is not necessary there).
+		_, hasNat2 := flags["struct"]
+		natural2 := hasNat2
+		var failing []string
+		for _, hyp := range natural2Hyps {
+			if v, ok := flags[hyp]; !ok {
+				hasNat2 = false
+			} else if !v {
+				natural2 = false
+				failing = append(failing, hyp)
+			}
+		}
+		if !hasNat2 {
+			h.rep.Add(vh.Case{Kind: "disagreement", Op: cline, Model: model, Detail: "driver: jl.cert does not report the hypotheses of encoder_roundtrip_natural_partial (wf nonative lbl ctx loc struct) — " + desc})
+			return
+		}
+		h.rep.Count(fmt.Sprintf("encode:natural2=%v,cert=%v", natural2, flags["cert"]))
+		for _, hyp := range failing {
+			h.rep.Count("encode:hyp-fails:" + hyp)
+			if flags["cert"] {
+				h.rep.Count("encode:cert-without:" + hyp)
+			}
+			if len(failing) == 1 {
+				// the only failing hypothesis: the boundary of this hypothesis alone is crossed
+				h.rep.Count(fmt.Sprintf("encode:only-hyp-failing:%s,cert=%v,go-roundtrip=%v", hyp, flags["cert"], oracleOK))
+			}
+		}
+		if ds.witness != "" && *verbose {
+			fmt.Printf("witness %s: driver: %s\n", ds.witness, model)
+		}
+		if ds.witness != "" {
+			h.rep.Count(fmt.Sprintf("encode:witness:%s:flags:cert=%v,natural2=%v,failing=[%s]", ds.witness, flags["cert"], natural2, strings.Join(failing, " ")))
+		}
+		if natural2 && !flags["cert"] {
+			// never filtered by a class of known findings: this is a theorem about the model alone
+			h.rep.Add(vh.Case{Kind: "disagreement", Op: cline, Model: model, Go: oracleDetail, Detail: "theorem encoder_roundtrip_natural_partial contradicted by the driver: wf, nonative, lbl, ctx, loc and struct hold but the certificate does not (impossible if the proof is right: a bug of the model/driver evaluation) — " + desc})
+		}
 		classify := func() string {
 			switch {
 			case dres.err != nil && strings.Contains(dres.err.Error(), "parse:") && hasC1(ds.quads):
@@ -363,8 +435,19 @@ func (h *harness) encodeOne(ds dataset, cfg encCfg, mode11 bool, docBase string)
 				return "iri-scheme-equals-declared-prefix"
 			case resolverDeviates(gdoc, docBase) || (cfg.base != "" && resolverDeviates(gdoc, cfg.base)):
 				return "jsonld-resolver-deviates-from-rfc3986"
+			case relRefMisread(cfg, ds.quads, gdoc) != "":
+				return "relative-reference-read-as-compact-or-absolute-iri"
 			}
 			return ""
+		}
+		// inputs outside the quantifier of the property (drawn to see both sides of lbl / ctx / wf): the
+		// plain round-trip oracle is counted for them, not reported
+		outside := outsideQuantifier(cfg, ds.quads)
+		if outside == "" && !flags["wf"] {
+			outside = "ill-formed-term"
+		}
+		if outside != "" {
+			h.rep.Count(fmt.Sprintf("encode:outside-quantifier:%s:go-roundtrip=%v", outside, oracleOK))
 		}
 		if flags["cert"] && !oracleOK {
 			// the theorem says the model's reading is isomorphic; the implementation disagrees
@@ -374,14 +457,27 @@ func (h *harness) encodeOne(ds dataset, cfg encCfg, mode11 bool, docBase string)
 			h.rep.Add(vh.Case{Kind: "violation", Op: cline, Go: oracleDetail, Detail: "encoder output does not decode back to the dataset although the certificate of encoder_roundtrip_partial holds — " + desc})
 			return
 		}
+		// The older, unproved statement (dg, nonative, wf, no scheme clash ⇒ cert) lacks the hypotheses
+		// lbl, ctx and loc of the theorem: where one of those fails it is refuted on the model (prefix
+		// "@1", a base that is not absolute, a relative reference with a colon, the empty label). Such
+		// cases are counted per refuting hypothesis; the statement is still checked everywhere else.
+		refuted := false
 		if natural && !flags["cert"] {
+			for _, hyp := range failing {
+				if hyp == "lbl" || hyp == "ctx" || hyp == "loc" {
+					h.rep.Count("encode:old-natural-refuted-by:" + hyp)
+					refuted = true
+				}
+			}
+		}
+		if natural && !flags["cert"] && !refuted {
 			if key := classify(); key != "" && h.knownCase(key, desc+" (certificate does not hold)") {
 				return
 			}
 			h.rep.Add(vh.Case{Kind: "disagreement", Op: cline, Model: model, Go: oracleDetail, Detail: "natural hypotheses hold but the certificate does not (statement encoder_roundtrip_natural fails on the model) — " + desc})
 			return
 		}
-		if !oracleOK {
+		if !oracleOK && outside == "" {
 			if key := classify(); key != "" && h.knownCase(key, desc+" "+oracleDetail) {
 				return
 			}
@@ -424,6 +520,133 @@ func baseOutsideDomain(b string) bool {
 	}
 	pb, err := iri.ParseIRI(b)
 	return err != nil || pb.String() != b
+}
+
+// outsideQuantifier: the configuration is not one the property speaks about: the base is not an absolute
+// IRI (NewEncoder accepts it and writes it as @base), or the blank node labelling answers the empty
+// string (`_:` alone is not a blank node identifier).
+func outsideQuantifier(cfg encCfg, qs []vh.GQuad) string {
+	if cfg.base != "" && !goodIRI(cfg.base) {
+		return "relative-base"
+	}
+	for _, q := range qs {
+		for _, t := range []vh.GTerm{q.S, q.O} {
+			if t.Kind == vh.KBNode && t.BNode < 0 {
+				return "empty-bnode-label"
+			}
+		}
+	}
+	return ""
+}
+
+// illFormedGo approximates the driver's flag wf on the implementation side (search mode only).
+func illFormedGo(qs []vh.GQuad) bool {
+	for _, q := range qs {
+		for _, t := range []vh.GTerm{q.S, q.P, q.O} {
+			if t.Kind == vh.KIRI && !goodIRI(t.IRI) {
+				return true
+			}
+			if t.Kind == vh.KLit && (!goodIRI(t.DT) || (t.DT == vh.RDFLangString && !goodLangTag(t.Lang))) {
+				return true
+			}
+		}
+	}
+	return false
+}
+
+func goodLangTag(s string) bool {
+	if s == "" {
+		return false
+	}
+	for i, part := range strings.Split(s, "-") {
+		if part == "" {
+			return false
+		}
+		for _, c := range part {
+			if !(c >= 'a' && c <= 'z' || c >= 'A' && c <= 'Z' || (i > 0 && c >= '0' && c <= '9')) {
+				return false
+			}
+		}
+	}
+	return true
+}
+
+// relRefMisread (class relative-reference-read-as-compact-or-absolute-iri; C10-K5, FIXED by commit ed9c0d1 — the
+// harness loads only status=known findings, so a recurrence is reported as a violation, this predicate then only
+// names the class): with a base configured, the
+// document carries as a value of "@id" the reference rel = RelativizeIRI(v) of a subject / object IRI v
+// of the dataset, and rel has a colon after its first character such that a JSON-LD reader (IRI
+// expansion, step 6) does not resolve it against the base: what precedes the colon is "_" or a prefix
+// declared in the document's @context, or "//" follows the colon. Returns rel, or "".
+func relRefMisread(cfg encCfg, qs []vh.GQuad, doc *JV) string {
+	if cfg.base == "" {
+		return ""
+	}
+	pb, err := iri.ParseBaseIRI(cfg.base)
+	if err != nil || pb == nil {
+		return ""
+	}
+	declared := map[string]bool{}
+	if c := doc.get("@context"); c != nil && c.kind == jObj {
+		for _, m := range c.ms {
+			if !strings.HasPrefix(m.k, "@") || !isKeywordFormGo(m.k) {
+				declared[m.k] = true
+			}
+		}
+	}
+	ids := map[string]bool{}
+	var walk func(v *JV, inCtx bool)
+	walk = func(v *JV, inCtx bool) {
+		switch v.kind {
+		case jArr:
+			for _, x := range v.xs {
+				walk(x, inCtx)
+			}
+		case jObj:
+			for _, m := range v.ms {
+				if m.k == "@context" {
+					continue
+				}
+				if m.k == "@id" && m.v.kind == jStr {
+					ids[m.v.s] = true
+				}
+				walk(m.v, inCtx)
+			}
+		}
+	}
+	walk(doc, false)
+	for _, q := range qs {
+		if q.G != nil {
+			continue
+		}
+		for _, t := range []vh.GTerm{q.S, q.O} {
+			if t.Kind != vh.KIRI {
+				continue
+			}
+			rel, ok := pb.RelativizeIRI(t.IRI)
+			if !ok || !ids[rel] || rel == t.IRI {
+				continue
+			}
+			if i := strings.IndexByte(rel, ':'); i > 0 {
+				if rel[:i] == "_" || declared[rel[:i]] || strings.HasPrefix(rel[i+1:], "//") {
+					return rel
+				}
+			}
+		}
+	}
+	return ""
+}
+
+func isKeywordFormGo(s string) bool {
+	if len(s) < 2 || s[0] != '@' {
+		return false
+	}
+	for _, c := range s[1:] {
+		if !(c >= 'a' && c <= 'z' || c >= 'A' && c <= 'Z') {
+			return false
+		}
+	}
+	return true
 }
 
 func usablePrefix(name, ns string) bool {
@@ -562,7 +785,8 @@ func rootOrder(doc *JV, qs []vh.GQuad) []string {
 }
 
 func hintTok(roots []string) string {
-	if len(roots) == 0 {
+	if len(roots) == 0 || (len(roots) == 1 && roots[0] == "") {
+		// (a single root needs no order; the empty label alone would be an empty token on the wire)
 		return "-"
 	}
 	hs := make([]string, len(roots))
